@@ -222,7 +222,7 @@ func init() {
 		// variants: everybody comes back; or one node stays away (down / cut off) while the rest is a majority
 		nn := sc.Opt.Nodes
 		for exclude := -1; exclude < nn; exclude++ {
-			s, err := replayHist(sc, hist)
+			s, err := replayExpected(sc, hist)
 			if err != nil {
 				s.close()
 				return out
